@@ -43,4 +43,25 @@ abbrev Ev := Op × Resp
 /-- Histories are kept newest event first. -/
 abbrev Hist := List Ev
 
+/-! Histories with awaiting watchers (the "parked watcher" cases of C18): besides the operations
+above a history may contain `await w` — a task is spawned that awaits the next message of
+stream `w` and is not polled again by anybody unless its waker is fired. -/
+
+inductive Item
+  | op (o : Op)
+  | await (w : Nat)
+deriving DecidableEq, Repr
+
+inductive Ans
+  | plain (r : Resp)     -- the answer `step` gives
+  | parked               -- `await`: nothing to deliver, the task is parked
+  | busy                 -- `next` / `await` on a stream held by a parked task
+deriving DecidableEq, Repr
+
+structure Out where
+  ans : Ans
+  /-- parked tasks that completed because of this item, with what they were delivered -/
+  woken : List (Nat × Resp)
+deriving DecidableEq, Repr
+
 end Health
